@@ -1,17 +1,16 @@
 SPECIFICATION Spec
 CONSTANTS
-  NSeq = 4
-  NCol = 2
-  Syms = {"A", "G", "-"}
-  Mode = "all"
-  DiagSet = {}
-  OffSize = 0
-  OffMults = {}
-  NCBlocks = {}
+  NSeq = 2
+  NCol = 0
+  Syms = {"A", "C", "G", "T", "R", "N", "-"}
+  Mode = "blocks"
+  DiagSet <- DiagBoundary
+  OffSize = 2
+  OffMults = {1, 3}
+  NCBlocks <- NCNone
 INVARIANT TypeOK
 INVARIANT Symmetric
 INVARIANT ZeroDiagonal
 INVARIANT ClassesSymmetric
-INVARIANT ColumnOrderFree
 INVARIANT ShortcutSound
 INVARIANT ShortcutKeepsComputed
